@@ -16,33 +16,6 @@ below `2·Q_SHIFTED` (`reach_lt`); `dexpr_avx_eq_ref`: the AVX2 lazy kernels sto
 namespace Ntt120
 open Hal (zeroP negMul sumPolys polyAdd polySub polyNeg)
 
-inductive DExpr where
-  | zero : DExpr
-  | dft (a : Poly) : DExpr
-  | svp (p : Poly) (e : DExpr) : DExpr
-  | add (x y : DExpr) : DExpr
-  | sub (x y : DExpr) : DExpr
-  | neg (x : DExpr) : DExpr
-
-/-- the polynomial the HAL specification assigns -/
-def DExpr.spec (n : Nat) : DExpr → Poly
-  | .zero => zeroP n
-  | .dft a => a
-  | .svp p e => sumPolys n [negMul (e.spec n) p]
-  | .add x y => polyAdd (x.spec n) (y.spec n)
-  | .sub x y => polySub (x.spec n) (y.spec n)
-  | .neg x => polySub (zeroP n) (x.spec n)
-
-/-- the `u64` lane of prime `k` the back end stores -/
-def DExpr.lane (P : PrimeSet) (k n : Nat) (avx : Bool) : DExpr → List Nat
-  | .zero => List.replicate n 0
-  | .dft a => realNtt P n k (a.map (fun x => bFromU64K (P.qs.getD k 1) (asU64 x)))
-  | .svp p e => bbcSlotsK (P.qs.getD k 1) (bbcH P) n
-      [((e.lane P k n avx).map u32Pair, vmpPrepareLaneK (P.qs.getD k 1) (realNtt P n k) p)]
-  | .add x y => List.zipWith (if avx then addBbbAvxK (P.qs.getD k 1) else addBbbK (P.qs.getD k 1)) (x.lane P k n avx) (y.lane P k n avx)
-  | .sub x y => List.zipWith (if avx then subBbbAvxK (P.qs.getD k 1) else subBbbK (P.qs.getD k 1)) (x.lane P k n avx) (y.lane P k n avx)
-  | .neg x => (x.lane P k n avx).map (if avx then negBAvxK (P.qs.getD k 1) else negBK (P.qs.getD k 1))
-
 def PolyOK (j : Nat) (a : Poly) : Prop := a.length = 2 ^ j ∧ ∀ x ∈ a, -(2 ^ 63) ≤ x ∧ x < 2 ^ 63
 
 /-- all coefficient-domain inputs are `i64` polynomials of ring degree `2^j` -/
